@@ -170,7 +170,7 @@ def run(ctx):
         "time_zone_probe": {"operations": len(tz_ops), "differences": len(tz_diff)},
         "evaluations": len(rcases), "distinct_nontrivial": len({c[0] for c in rcases}),
         "traces_validated_against_impl": len(rcases) - len(failing),
-        "rule": "reference-encoded batches (independent encoder) + the four real-broker fixtures x (identity with trailing "
+        "rule": "reference-encoded batches (independent encoder) + the four real-broker fixtures x (compound damage [bit flip + inflated declared length / cut; patched record count + cut], time-zone probe, identity with trailing "
                 "bytes | single-bit flips from byte 17 on (all bits for the fixtures) | wrong magic | truncations) + CRC-forced "
                 "truncation witnesses; distinct by input bytes",
         "batches": len(batches), "damage_kinds": kinds, "known_finding_hits": len(known_hits),
